@@ -1,5 +1,8 @@
 use crate::{GDErrorKind, GDResult};
+#[cfg(not(gamedig_verif))]
 use std::collections::HashMap;
+#[cfg(gamedig_verif)]
+use crate::verif_hook::collections::HashMap;
 
 pub fn has_password(server_vars: &mut HashMap<String, String>) -> GDResult<bool> {
     let password_value = server_vars
